@@ -297,7 +297,7 @@ def run(ctx):
         ctx.violation("implementation violates C14: " + json.dumps({k: v for k, v in f.items() if k not in ("lines",)}, ensure_ascii=False)[:600],
                       {"kind": "impl-vs-oracle", "case": {k: v for k, v in f.items() if k != "lines"}, "lines": f["lines"], "note": "replay applies the fault to a private copy of Rules/ first"},
                       tag="oracle", signature={"kind": "c14-oracle", "why": f["why"], "fault": f["fault"], "file_kind": os.path.basename(f["file"])})
-    found = bool(oracle_fail)
+    found = bool(ctx.violations)          # (failures attributed to a known finding do not count)
     if not pr["ok"] and not found:
         ctx.violation("theorem(s) no longer check: " + ", ".join(pr["failed"]), {"kind": "theorem", "theorems": pr["failed"], "lean_output": pr["output"][-1500:]}, tag="theorem", no_input=True)
     if disagreements and not found:
